@@ -165,6 +165,10 @@ def catalogue(ops, sp, cls):
         for j, op in enumerate(ops):
             if op["op"] in ("set_der", "set_next") and op["state"] == x:
                 out.append(("missing_der" if not discrete else "missing_next", "state#%d/%d" % (i + 1, len(states)), "omit", j))
+    for i, x in enumerate(sp.names("qstate")):
+        for j, op in enumerate(ops):
+            if op["op"] in ("set_der", "set_next") and op["state"] == x:
+                out.append(("missing_der" if not discrete else "missing_next", "quadrature-state#%d" % (i + 1), "omit", j))
     for i, p in enumerate(params):
         s = sp.sym(p)
         kind = "global" if s.get("grid", "") == "" else ("control+" if s.get("include_last") else "control")
@@ -224,7 +228,8 @@ def catalogue(ops, sp, cls):
         out.append(("constant_false_constraint", "t0", "add", {"op": "subject_to", "expr": [">=", ["t0"], ["c", float(sp.t0[1]) + 1.0]]}))
     if sp.T[0] == "num" and sp.t0[0] == "num":
         out.append(("constant_false_constraint", "tf", "add", {"op": "subject_to", "expr": ["<=", ["tf"], ["c", float(sp.t0[1]) + float(sp.T[1]) - 0.5]]}))
-    if cls in ("SingleShooting", "MultipleShooting") and not sp.names("algebraic") and not discrete:
+    intg = [op["m"].get("intg", "rk") for op in ops if op["op"] == "method"][0]
+    if cls in ("SingleShooting", "MultipleShooting") and not sp.names("algebraic") and not discrete and intg in ("rk", "expl_euler"):
         out.append(("alg_with_explicit_scheme", "-", "add2", [{"op": "sym", "name": "zF", "kind": "algebraic"},
                                                               {"op": "add_alg", "expr": ["-", ["s", "zF"], ["i", x0, 0]]}]))
     out.append(("late_state_without_der", "-", "add", {"op": "sym", "name": "xF", "kind": "state"}))
